@@ -167,7 +167,10 @@ def check_atm_reuse(seed):
     rng = np.random.default_rng(seed)
     a = simple_atm(rng)
     mk = lambda: make_atmosphere("simple_atmosphere", theta=a["theta"], tb_down=a["tb_down"], tb_up=a["tb_up"], transmittance=a["trans"])
-    shared = mk()
+    # the shared object is given the same nodes in another order (descending, or shuffled): the same physical description
+    order = list(range(len(a["theta"])))[::-1] if seed % 2 == 0 else [int(v) for v in rng.permutation(len(a["theta"]))]
+    shared = make_atmosphere("simple_atmosphere", theta=[a["theta"][j] for j in order], tb_down=[a["tb_down"][j] for j in order],
+                             tb_up=[a["tb_up"][j] for j in order], transmittance=[a["trans"][j] for j in order])
     m = make_model("iba", "dort", rtsolver_options=dict(n_max_stream=32))
     sensor = sensor_list.passive(float(rng.choice([18.7e9, 36.5e9])), [20., 35., 50., 65.])
     worst = 0.0
@@ -188,7 +191,7 @@ def oracle(ctx, hints, effort):
         sd = int(rng.integers(0, 2**31))
         r = check_atm_reuse(sd)
         if r:
-            findings.setdefault(r[0], Finding(r[0], "a reused angle-dependent atmosphere object gives a different Tb than a fresh identical one",
+            findings.setdefault(r[0], Finding(r[0], "an angle-dependent atmosphere object (nodes given in another order, reused over a series of snowpacks) gives a different Tb than a fresh one with sorted nodes",
                                               {"kind": "atm-reuse", "seed": sd}, r[1], r[2]))
     n = 4 if effort == "routine" else 40
     for i in range(n):
